@@ -52,97 +52,23 @@ func checkC11(p *core.Program, r *core.Report) {
 	r.Rule(R3, "delete(Hub.connections) guarded by identity compare with a lookup in the same critical section of muxCon")
 	r.Rule(R4, "hub.HandleConnectionClosed: exactly one RemoteSKIDisconnected per path")
 
-	conn := p.Named("ship", "ShipConnection")
-	fOnce := p.Field("ship", "ShipConnection", "shutdownOnce")
-	mClosed := p.IfaceMethod("api", "ShipConnectionInfoProviderInterface", "HandleConnectionClosed")
-	mCloseData := p.IfaceMethod("api", "WebsocketDataWriterInterface", "CloseDataConnection")
-	if conn == nil || fOnce == nil || mClosed == nil || mCloseData == nil {
-		r.Unresolved(R1, "ship.ShipConnection.shutdownOnce / HandleConnectionClosed / CloseDataConnection")
+	if !checkShipCloseOnce(p, r, R1, R2) {
 		return
 	}
-	shipFns := p.FuncsOf("ship")
-	var bodies []*ssa.Function
-	for _, fn := range shipFns {
-		core.EachInstr(fn, func(in ssa.Instruction) {
-			if core.IsStaticCall(in, "(*sync.Once).Do") {
-				c := core.Common(in)
-				if fa, ok := c.Args[0].(*ssa.FieldAddr); ok && core.FieldVar(fa) == fOnce {
-					if b := core.ClosureArg(c.Args[1]); b != nil {
-						bodies = append(bodies, b)
-					} else {
-						r.Fail(R1, "once-body of "+p.FnName(fn), p.Pos(in.Pos()), "the close-once body is not a function literal; cannot be analysed")
-					}
-				}
-			}
-		})
-	}
-	if len(bodies) == 0 {
-		r.Unresolved(R1, "function literal passed to shutdownOnce.Do")
-		return
-	}
-	inBody := func(fn *ssa.Function) bool {
-		for _, b := range bodies {
-			if core.NestedIn(fn, b) {
-				return true
-			}
-		}
-		return false
-	}
-	for _, s := range core.Sites(shipFns, func(in ssa.Instruction) bool {
-		return core.IsInvokeOf(in, mClosed) || core.IsInvokeOf(in, mCloseData)
-	}) {
-		what := "HandleConnectionClosed"
-		if core.IsInvokeOf(s.In, mCloseData) {
-			what = "CloseDataConnection"
-		}
-		key := what + " call in " + shortFn(p.FnName(s.Fn))
-		if inBody(s.Fn) {
-			r.OK(R1, key, p.Pos(s.In.Pos()), "inside the shutdownOnce body")
-		} else {
-			r.Fail(R1, key, p.Pos(s.In.Pos()), what+" is called outside the shutdownOnce-guarded close path: this connection end can be reported/closed in addition to the guarded one (reported twice)")
-		}
-	}
-	r.Floor(R1, 2)
 
-	// R2
-	for _, b := range bodies {
-		isRep := func(in ssa.Instruction) bool { return core.IsInvokeOf(in, mClosed) }
-		isClose := func(in ssa.Instruction) bool { return core.IsInvokeOf(in, mCloseData) }
-		weightOf := func(pred func(ssa.Instruction) bool) func(ssa.Instruction) int {
-			var w func(in ssa.Instruction) int
-			w = func(in ssa.Instruction) int {
-				if pred(in) {
-					return 1
-				}
-				if g, ok := in.(*ssa.Go); ok {
-					if cl := core.ClosureArg(g.Call.Value); cl != nil {
-						mn, mx, ok := pathCount(cl, w)
-						if ok && mn == mx {
-							return mn
-						}
-						return 1000 // not exactly-k: poison
-					}
-				}
-				return 0
+	// R5: the close-once must not be re-entered from its own body (found by the automaton interpreter)
+	const R5 = "C11.R5 close-once-not-reentered"
+	r.Rule(R5, "no path inside the shutdownOnce body reaches shutdownOnce.Do again (sync.Once is not re-entrant: deadlock, end never reported)")
+	if fr := getFSM(p, r, R5); fr != nil {
+		n := 0
+		for _, pb := range fr.f.problems {
+			if pb.rule == R5 {
+				n++
+				r.Fail(R5, pb.key, p.Pos(pb.pos), pb.msg)
 			}
-			return w
 		}
-		mn, mx, ok := pathCount(b, weightOf(isRep))
-		key := "once-body " + shortFn(p.FnName(b)) + " reports"
-		switch {
-		case !ok:
-			r.Fail(R2, key, p.Pos(b.Pos()), "too many paths to enumerate")
-		case mn == 1 && mx == 1:
-			r.OK(R2, key, p.Pos(b.Pos()), "exactly one HandleConnectionClosed on every path")
-		default:
-			r.Fail(R2, key, p.Pos(b.Pos()), fmt.Sprintf("paths through the close routine report the connection end between %d and %d times (must be exactly once)", mn, mx))
-		}
-		mn, _, ok = pathCount(b, weightOf(isClose))
-		key = "once-body " + shortFn(p.FnName(b)) + " closes-transport"
-		if ok && mn >= 1 && mn < 1000 {
-			r.OK(R2, key, p.Pos(b.Pos()), "every path closes the transport")
-		} else {
-			r.Fail(R2, key, p.Pos(b.Pos()), "a path through the close routine does not close the transport")
+		if n == 0 {
+			r.OK(R5, "shutdownOnce body", "", "no call chain from the once body leads back to shutdownOnce.Do (all entries x all states explored)")
 		}
 	}
 
@@ -342,4 +268,108 @@ func derivesFrom(v, root ssa.Value, depth int) bool {
 		return derivesFrom(x.X, root, depth-1)
 	}
 	return false
+}
+
+// checkShipCloseOnce: ownership of the close path by shutdownOnce (R1) and
+// exactly-one end report per guarded close (R2). Shared by C11 and C05.
+func checkShipCloseOnce(p *core.Program, r *core.Report, R1, R2 string) bool {
+	conn := p.Named("ship", "ShipConnection")
+	fOnce := p.Field("ship", "ShipConnection", "shutdownOnce")
+	mClosed := p.IfaceMethod("api", "ShipConnectionInfoProviderInterface", "HandleConnectionClosed")
+	mCloseData := p.IfaceMethod("api", "WebsocketDataWriterInterface", "CloseDataConnection")
+	if conn == nil || fOnce == nil || mClosed == nil || mCloseData == nil {
+		r.Unresolved(R1, "ship.ShipConnection.shutdownOnce / HandleConnectionClosed / CloseDataConnection")
+		return false
+	}
+	shipFns := p.FuncsOf("ship")
+	var bodies []*ssa.Function
+	for _, fn := range shipFns {
+		core.EachInstr(fn, func(in ssa.Instruction) {
+			if core.IsStaticCall(in, "(*sync.Once).Do") {
+				c := core.Common(in)
+				if fa, ok := c.Args[0].(*ssa.FieldAddr); ok && core.FieldVar(fa) == fOnce {
+					if b := core.ClosureArg(c.Args[1]); b != nil {
+						bodies = append(bodies, b)
+					} else {
+						r.Fail(R1, "once-body of "+p.FnName(fn), p.Pos(in.Pos()), "the close-once body is not a function literal; cannot be analysed")
+					}
+				}
+			}
+		})
+	}
+	if len(bodies) == 0 {
+		r.Unresolved(R1, "function literal passed to shutdownOnce.Do")
+		return false
+	}
+	inBody := func(fn *ssa.Function) bool {
+		for _, b := range bodies {
+			if core.NestedIn(fn, b) {
+				return true
+			}
+		}
+		return false
+	}
+	for _, s := range core.Sites(shipFns, func(in ssa.Instruction) bool {
+		return core.IsInvokeOf(in, mClosed) || core.IsInvokeOf(in, mCloseData)
+	}) {
+		what := "HandleConnectionClosed"
+		if core.IsInvokeOf(s.In, mCloseData) {
+			what = "CloseDataConnection"
+		}
+		key := what + " call in " + shortFn(p.FnName(s.Fn))
+		if inBody(s.Fn) {
+			r.OK(R1, key, p.Pos(s.In.Pos()), "inside the shutdownOnce body")
+		} else {
+			r.Fail(R1, key, p.Pos(s.In.Pos()), what+" is called outside the shutdownOnce-guarded close path: this connection end can be reported/closed in addition to the guarded one (reported twice)")
+		}
+	}
+	r.Floor(R1, 2)
+
+	// R2
+	for _, b := range bodies {
+		isRep := func(in ssa.Instruction) bool { return core.IsInvokeOf(in, mClosed) }
+		isClose := func(in ssa.Instruction) bool { return core.IsInvokeOf(in, mCloseData) }
+		weightOf := func(pred func(ssa.Instruction) bool) func(ssa.Instruction) int {
+			var w func(in ssa.Instruction) int
+			w = func(in ssa.Instruction) int {
+				if pred(in) {
+					return 1
+				}
+				if g, ok := in.(*ssa.Go); ok {
+					if cl := core.ClosureArg(g.Call.Value); cl != nil {
+						mn, mx, ok := pathCount(cl, w)
+						if ok && mn == mx {
+							return mn
+						}
+						return 1000 // not exactly-k: poison
+					}
+				}
+				return 0
+			}
+			return w
+		}
+		mn, mx, ok := pathCount(b, weightOf(isRep))
+		key := "once-body " + shortFn(p.FnName(b)) + " reports"
+		switch {
+		case !ok:
+			r.Fail(R2, key, p.Pos(b.Pos()), "too many paths to enumerate")
+		case mn == 1 && mx == 1:
+			r.OK(R2, key, p.Pos(b.Pos()), "exactly one HandleConnectionClosed on every path")
+		default:
+			msg := fmt.Sprintf("paths through the close routine report the connection end between %d and %d times (must be exactly once)", mn, mx)
+			if mx >= 1000 {
+				msg = "a goroutine spawned by the close routine does not report the connection end exactly once on all of its paths: the hub never learns that this connection ended (its registry entry stays)"
+			}
+			r.Fail(R2, key, p.Pos(b.Pos()), msg)
+		}
+		mn, _, ok = pathCount(b, weightOf(isClose))
+		key = "once-body " + shortFn(p.FnName(b)) + " closes-transport"
+		if ok && mn >= 1 && mn < 1000 {
+			r.OK(R2, key, p.Pos(b.Pos()), "every path closes the transport")
+		} else {
+			r.Fail(R2, key, p.Pos(b.Pos()), "a path through the close routine does not close the transport")
+		}
+	}
+
+	return true
 }
